@@ -30,7 +30,8 @@ impl Rng {
     }
 }
 
-const SOUP: [&str; 56] = [
+const SOUP: [&str; 62] = [
+    "\u{feff}", "\u{feff}1", "\u{200b}", "\u{fffe}", " 1", "1 ",
     "+", "-", "*", "/", "%", "^", "(", ")", ",", ";", "=", "!", "<", ">", "&", "|", "\"", "\\", "/*", "*/", "//", "\n", " ",
     "\t", "0", "1", "9", "e", "E", "x", ".", "a", "f", "true", "false", "math::", "str::", "len", "if", "ä", "😀", "\u{301}",
     "\u{a0}", "\u{2028}", "\u{0}", "_", "0x", "&&", "||", "==", "+=", "\r", "'", "#", "r#", "\u{7f}",
@@ -164,7 +165,7 @@ fn main() {
     let mut samples: Vec<String> = Vec::new();
 
     // ---- A. deserialize(serialize_as_string(s)) == build_operator_tree(s)
-    let fixed = ["3", "4+4", "21^(2*2)--3>5||!true", "&", "\"", "(", "a = 1; a", "1,2;3", "/* c */ 1", "\"a\\\"b\""];
+    let fixed = ["3", "4+4", "21^(2*2)--3>5||!true", "&", "\"", "(", "a = 1; a", "1,2;3", "/* c */ 1", "\"a\\\"b\"", "\u{feff}1", "\u{feff}", " 7", "7 ", "\n7", "\t+5", "-5", "+5", "\u{feff}a + 1", "\u{200b}2"];
     for i in 0..n_strings {
         let s = if (i as usize) < fixed.len() { fixed[i as usize].to_string() } else { random_source(&mut r) };
         distinct.insert(s.clone());
